@@ -30,6 +30,7 @@ type Env struct {
 	parent *Env
 	phiOverride map[*ssa.Phi]Val
 	inLoop bool
+	preferNames bool
 	pkg    *types.Package
 	ghostDepth int
 }
@@ -46,7 +47,7 @@ func (r *FnRun) newEnv(cur, old *State) *Env {
 }
 
 func (env *Env) child() *Env {
-	return &Env{r: env.r, vars: map[string]CV{}, cur: env.cur, old: env.old, parent: env, phiOverride: env.phiOverride, inLoop: env.inLoop, pkg: env.pkg}
+	return &Env{r: env.r, vars: map[string]CV{}, cur: env.cur, old: env.old, parent: env, phiOverride: env.phiOverride, inLoop: env.inLoop, preferNames: env.preferNames, pkg: env.pkg}
 }
 
 func (env *Env) withStates(cur, old *State) *Env {
@@ -241,6 +242,13 @@ func (env *Env) evalIdent(name string) CV {
 			}
 			if _, done := r.vals[phi]; done {
 				return CV{V: r.val(phi), T: phi.Type()}
+			}
+		}
+	}
+	if env.preferNames {
+		if sv, ok := r.names[name]; ok {
+			if _, done := r.vals[sv]; done {
+				return CV{V: r.val(sv), T: sv.Type()}
 			}
 		}
 	}
@@ -594,6 +602,10 @@ func (env *Env) evalField(x CV, name string, e *Expr) CV {
 		if _, isS := f.Type().Underlying().(*types.Struct); isS {
 			return CV{V: fp, T: types.NewPointer(f.Type())}
 		}
+		if fp.Kind == PByteObj {
+			// byte-array fields are denoted by their object (index, sub(), BH[...] and cowned() accept it)
+			return CV{V: fp, T: types.NewPointer(f.Type())}
+		}
 		_ = tb
 		return CV{V: r.load(env.cur, fp, f.Type()), T: f.Type()}
 	}
@@ -629,7 +641,9 @@ func (env *Env) fieldPtr(base PtrV, stt types.Type, su *types.Struct, idx int) P
 			return PtrV{Kind: PObj, Addr: tb.Add(base.Addr, tb.BVI(64, off)), T: ft}
 		}
 		if n, isBA := isByteArray(ft); isBA {
-			return PtrV{Kind: PByteObj, Base: tb.App("fobj:"+fieldKey(stt, idx), BV64, base.Addr), N: n, T: ft}
+			fb := tb.App("fobj:"+fieldKey(stt, idx), BV64, base.Addr)
+			r.fobjFacts(fb, base.Addr)
+			return PtrV{Kind: PByteObj, Base: fb, N: n, T: ft}
 		}
 		return PtrV{Kind: PField, Addr: base.Addr, ST: su, STN: structKey(stt), Idx: idx, T: ft}
 	case PLocal:
@@ -703,7 +717,14 @@ func (env *Env) evalCall(e *Expr) CV {
 		if env.old == nil {
 			panic(cerr("old() not available here"))
 		}
-		return env.withStates(env.old, env.old).Eval(e.Args[0])
+		res := env.withStates(env.old, env.old).Eval(e.Args[0])
+		if sv, ok := res.V.(SliceV); ok && sv.Arr == nil {
+			// a byte string denoted in the old state keeps its old content
+			sv.Arr = r.sliceContent(env.old, sv)
+			sv.Raw = false
+			res.V = sv
+		}
+		return res
 	case "len", "cap":
 		x := arg(0)
 		switch v := x.V.(type) {
@@ -781,6 +802,9 @@ func (env *Env) evalCall(e *Expr) CV {
 			return CV{V: iv, T: x.T}
 		}
 		return CV{V: r.makeInterface(env.cur, x.V, x.T), T: specTypes["iface"]}
+	case "ifaceof":
+		tg, dt := r.scalar(arg(0).V), r.scalar(arg(1).V)
+		return CV{V: IfaceV{Tag: tg, Data: dt}, T: specTypes["iface"]}
 	case "tag":
 		return CV{V: Scalar{arg(0).V.(IfaceV).Tag}, T: types.Typ[types.Uint64]}
 	case "data":
@@ -899,7 +923,62 @@ func (env *Env) evalCall(e *Expr) CV {
 		return CV{V: Scalar{r.fpToBits(tb.Raw("(_ to_fp 8 24) RNE", FP(32), r.toFP(x)), 32)}, T: types.Typ[types.Float32]}
 	case "tlen":
 		return CV{V: Scalar{r.e.ghost(env.cur, "trace.len", BV64)}, T: it}
-	case "tkind", "ta", "tb", "tc", "td":
+	case "tbytes":
+		// tbytes(i, offslot, lenslot): the byte string recorded in event i (its offset/length live in the named word slots)
+		i := argInt(0)
+		offN, lenN := "c", "d"
+		if len(e.Args) == 3 {
+			offN, lenN = e.Args[1].Name, e.Args[2].Name
+		}
+		arrs := r.e.ghost(env.cur, "trace.arr", ObjAr)
+		off := tb.Select(r.e.ghost(env.cur, "trace."+offN, WordAr), i)
+		ln := tb.Select(r.e.ghost(env.cur, "trace."+lenN, WordAr), i)
+		return CV{V: SliceV{Base: tb.BVI(64, 0), Off: off, Len: ln, Arr: tb.Select(arrs, i)}, T: specTypes["bytes"]}
+	case "sub":
+		// sub(s, lo, hi): s[lo:hi] of a byte slice, string or byte array
+		lo, hi := argInt(1), argInt(2)
+		switch v := arg(0).V.(type) {
+		case SliceV:
+			nv := v
+			nv.Off = tb.Add(v.Off, lo)
+			nv.Len = tb.Sub(hi, lo)
+			if v.Cap != nil {
+				nv.Cap = tb.Sub(v.Cap, lo)
+			}
+			return CV{V: nv, T: specTypes["bytes"]}
+		case PtrV:
+			if v.Kind == PByteObj {
+				return CV{V: SliceV{Base: v.Base, Off: lo, Len: tb.Sub(hi, lo), Cap: tb.Sub(tb.BVI(64, v.N), lo)}, T: specTypes["bytes"]}
+			}
+		case ArrV:
+			return CV{V: SliceV{Base: tb.BVI(64, 0), Off: lo, Len: tb.Sub(hi, lo), Arr: v.Arr}, T: specTypes["bytes"]}
+		}
+		panic(cerr("sub of %T", arg(0).V))
+	case "streq", "samebytes":
+		// content equality of two byte strings (slices, strings, recorded event bytes)
+		x, okx := arg(0).V.(SliceV)
+		y, oky := arg(1).V.(SliceV)
+		if !okx || !oky {
+			panic(cerr("%s expects byte strings", name))
+		}
+		return CV{V: Scalar{r.stringEq(env.cur, x, y)}, T: boolT}
+	case "cowned":
+		switch v := arg(0).V.(type) {
+		case SliceV:
+			return CV{V: Scalar{tb.App("cowned", BoolSort, v.Base)}, T: boolT}
+		case Scalar:
+			return CV{V: Scalar{tb.App("cowned", BoolSort, v.T)}, T: boolT}
+		case PtrV:
+			if v.Kind == PByteObj {
+				return CV{V: Scalar{tb.App("cowned", BoolSort, v.Base)}, T: boolT}
+			}
+		}
+		panic(cerr("cowned of %T", arg(0).V))
+	case "bhframe_unowned":
+		// byte objects allocated in the old state that do not belong to a compressor are unchanged
+		b := tb.BoundVar("b", BV64)
+		return CV{V: Scalar{tb.Forall([]*Term{b}, tb.Implies(tb.And(tb.Select(env.old.BA, b), tb.Not(tb.App("cowned", BoolSort, b))), tb.Eq(tb.Select(env.cur.BH, b), tb.Select(env.old.BH, b))))}, T: boolT}
+	case "tkind", "ta", "tb", "tc", "td", "te", "tf", "tg", "th":
 		i := argInt(0)
 		arr := r.e.ghost(env.cur, "trace."+name[1:], WordAr)
 		return CV{V: Scalar{tb.Select(arr, i)}, T: types.Typ[types.Uint64]}
@@ -1056,7 +1135,7 @@ func (e *Engine) parseTypeName(from *types.Package, name string) types.Type {
 	return t
 }
 
-var eventKinds = map[string]int{"V": 1, "B": 2, "W": 3, "CW": 4, "RV": 5, "RB": 6, "RN": 7, "CR": 8, "CS": 9, "OUT": 10, "TOK": 11, "CB": 12, "NEW": 13, "OMIT": 14}
+var eventKinds = map[string]int{"V": 1, "B": 2, "W": 3, "CW": 4, "RV": 5, "RB": 6, "RN": 7, "CR": 8, "CS": 9, "OUT": 10, "TOK": 11, "CB": 12, "NEW": 13, "OMIT": 14, "WB": 15, "FL": 16, "CLR": 17, "HDR": 18, "IN": 19, "ENC": 20}
 
 // useAxiom instantiates an axiom schema at the given argument expressions.
 func (env *Env) useAxiom(e *Expr) *Term {
